@@ -23,6 +23,20 @@ theorem C18_get_first (m : Msg) (c : UInt32) :
     rw [List.find?_eq_some_iff_append]
     simp
 
+/-- lookup along a history: after `add` (on a built *or* decoded message) the lookup still answers with the earlier
+first occurrence if there was one, and with the appended AVP only when the code was absent before -/
+theorem C18_get_after_add (m : Msg) (a : Avp) (c : UInt32) :
+    (m.add a).getAvp c = (match m.getAvp c with
+      | some x => some x
+      | none => if a.code = c then some a else none) := by
+  unfold Msg.getAvp
+  rw [C18_add_appends, List.find?_append]
+  cases h : List.find? (fun x => x.code == c) m.avps <;> simp [List.find?]
+  by_cases hc : a.code = c
+  · simp [hc]
+  · have : (a.code == c) = false := by simpa using hc
+    simp [this, hc]
+
 /-- the index the harness reports is the position of that first AVP -/
 theorem C18_get_idx (m : Msg) (c : UInt32) (i : Nat) (h : m.getAvpIdx c = some i) :
     ∃ a, m.avps[i]? = some a ∧ m.getAvp c = some a := by
